@@ -86,9 +86,11 @@ def _project(desc, idx):
 
 
 class Exits:
-    def __init__(self, prog, body, effects=False):
+    def __init__(self, prog, body, effects=False, sinks=None, cap_env=None):
         self.prog, self.body = prog, body
+        self.cap_env = cap_env or {}
         self.effects = effects
+        self.sinks = re.compile(sinks) if sinks else None
         self.cfg = prog.cfg(body)
         self.D = Describer(body)
         self.du = DefUse(body)
@@ -103,7 +105,11 @@ class Exits:
         if k in ('format', 'fmt::format') or k.startswith('Arguments::') or k.endswith('::to_string') and False:
             return 'fmt(..)'
         k = re.sub(r'^<(&?\w+) as \w+(?:<.*>)?>::', r'\1::', k)
-        args = [self.val(a, depth + 1) for a in (t.args or [])]
+        raw_args = list(t.args or [])
+        if any(a.strip() == 'const _' for a in raw_args):
+            names = iter(re.findall(r'Unevaluated\(([A-Za-z_][\w:]*)', ' '.join(t.extra or [])))
+            raw_args = [('const %s' % next(names, '_')) if a.strip() == 'const _' else a for a in raw_args]
+        args = [self.val(a, depth + 1) for a in raw_args]
         return '%s(%s)' % (k, ', '.join(args))
 
     def single_def(self, loc):
@@ -120,10 +126,12 @@ class Exits:
 
     def place(self, pl, depth=0):
         pl = pl.strip()
-        if '_1' in pl and '{closure' in (self.body.name or ''):
+        if '{closure' in (self.body.name or '') and re.search(r'(?<![\d_])_1(?!\d)', pl):
             norm = re.sub(r'[()*]', '', pl)
             for name, place in self.body.debug_all:
-                if re.sub(r'[()*]', '', place.strip()) == norm and '_1' in place:
+                if re.sub(r'[()*]', '', place.strip()) == norm and re.search(r'(?<![\d_])_1(?!\d)', place):
+                    if name in self.cap_env:
+                        return self.cap_env[name]
                     return 'cap:' + name
         m = re.fullmatch(r'_(\d+)', pl)
         if m:
@@ -208,7 +216,8 @@ class Exits:
         helper): long descriptions are abbreviated to a prefix plus a digest of the full text; a local that is (transitively)
         defined in terms of itself (loop-carried) is cut at the point of re-entry with `…`."""
         if loc in self.du.params:
-            return 'arg%d' % loc
+            k = (self.body.name or '').count('{closure')
+            return ('arg%d' % loc) if k == 0 else ('c%d.arg%d' % (k, loc))
         if loc in self._memo:
             return self._memo[loc]
         if loc in self._busy or depth > 150:
@@ -240,6 +249,17 @@ class Exits:
         self._cyc = self._cyc or outer_cyc
         return desc
 
+    @staticmethod
+    def named(text, extra):
+        """Replace `const _` operands by the named constant recorded in the statement's MIR comments."""
+        if text is None or 'const _' not in text:
+            return text
+        names = re.findall(r'Unevaluated\(([A-Za-z_][\w:]*)', ' '.join(extra or []))
+        if not names:
+            return text
+        it = iter(names)
+        return re.sub(r'const _(?![\w])', lambda m: 'const %s' % next(it, '_'), text)
+
     def def_desc(self, d, depth):
         kind, bid, obj = d
         if kind == 'call':
@@ -254,7 +274,7 @@ class Exits:
             if short == 'into_iter' and obj.args:
                 return self.val(obj.args[0], depth + 1)
             return self.call_desc(obj, depth)
-        return self.rvalue(obj.rhs, depth + 1)
+        return self.rvalue(self.named(obj.rhs, obj.extra), depth + 1)
 
     def rvalue(self, rhs, depth=0):
         rhs = rhs.strip()
@@ -317,6 +337,18 @@ class Exits:
             return self.place(rhs, depth)
         return '_'
 
+    def capture_env(self, rhs):
+        """name -> description (in THIS body) of each variable the closure aggregate captures."""
+        env = {}
+        m = re.match(r'^\[closure@[^\]]+\] \{(.*)\}$', rhs.strip())
+        if not m:
+            return env
+        for f in mir.split_top(m.group(1)):
+            if ': ' in f:
+                n, v = f.split(': ', 1)
+                env[n.strip()] = self.val(v.strip(), 1)
+        return env
+
     def closure_desc(self, rhs):
         m = re.match(r'^\[closure@([^\]]+)\]', rhs)
         if not m:
@@ -336,7 +368,7 @@ class Exits:
             return 'closure'
         _CLOSURE_STACK.append(tgt.name)
         try:
-            ex = Exits(self.prog, tgt).census()
+            ex = Exits(self.prog, tgt, cap_env=self.capture_env(rhs)).census()
         finally:
             _CLOSURE_STACK.pop()
         parts = []
@@ -377,7 +409,7 @@ class Exits:
             if d is not None:
                 kind, bid, obj = d
                 if kind == 'assign':
-                    rhs = obj.rhs.strip()
+                    rhs = self.named(obj.rhs, obj.extra).strip()
                     mm = re.match(r'^(\w+)\((.*)\)$', rhs)
                     if mm and mm.group(1) in _SYM and truth is not None:
                         a, b = mir.split_top(mm.group(2))
@@ -612,12 +644,14 @@ class Exits:
                 continue
             for i, s in enumerate(blk.stmts):
                 if s.kind == 'assign' and s.lhs.strip() == '_0':
-                    out.append((bid, s.span, self.rvalue(s.rhs), s.rhs.strip()))
+                    out.append((bid, s.span, self.rvalue(self.named(s.rhs, s.extra)), s.rhs.strip()))
                 elif self.effects and s.kind == 'assign':
                     m = re.match(r'^\(+\*(_\d+)\)', s.lhs.strip())
                     if m and self.param_root(int(m.group(1)[1:])) is not None:
-                        out.append((bid, s.span, 'write %s := %s' % (self.place(s.lhs), self.rvalue(s.rhs)), 'effect'))
+                        out.append((bid, s.span, 'write %s := %s' % (self.place(s.lhs), self.rvalue(self.named(s.rhs, s.extra))), 'effect'))
             t = blk.term
+            if self.sinks is not None and t.kind == 'call' and self.sinks.search(mir.callee_key(t.callee)):
+                out.append((bid, t.span, 'call %s' % self.call_desc(t), 'effect'))
             if t.kind == 'call' and t.dest and t.dest.strip() == '_0':
                 out.append((bid, t.span, self.call_desc(t), t.callee))
             elif self.effects and t.kind == 'call' and t.args:
@@ -687,10 +721,47 @@ class Exits:
             lab = 'fail(%s)' % lab
         return [{'bid': bid, 'span': span, 'label': lab, 'cls': cls}]
 
-    def census(self):
+    def closure_effects(self, depth=0):
+        """Effect entries (sink calls / writes through captured &mut) of the closures constructed in this body, so that the
+        work done inside `for_each(|..| ..)` is part of the enclosing function's census."""
+        out = []
+        if (self.sinks is None and not self.effects) or depth > 3:
+            return out
+        idx = getattr(self.prog, '_closure_by_span', None)
+        if idx is None:
+            self.closure_desc('[closure@?]')
+            idx = getattr(self.prog, '_closure_by_span', {})
+        for bid, blk in sorted(self.body.blocks.items()):
+            if blk.cleanup:
+                continue
+            for st in blk.stmts:
+                if st.kind != 'assign' or not st.rhs.strip().startswith('[closure@'):
+                    continue
+                m = re.match(r'^\[closure@([^\]]+)\]', st.rhs.strip())
+                c = idx.get(m.group(1).strip()) if m else None
+                if c is None or c.name == self.body.name:
+                    continue
+                from .census import inlined as _inl
+                sub = Exits(self.prog, _inl(self.prog, c), effects=self.effects, sinks=self.sinks.pattern if self.sinks else None,
+                            cap_env=self.capture_env(st.rhs))
+                outer = sorted(filter(None, {self.branch_atom(a, s) for (a, s) in self.closure_edges(bid)}))
+                for e in sub.census(depth + 1):
+                    if e.get('effect'):
+                        e2 = dict(e)
+                        e2['label'] = 'in closure: ' + e['label'] if not e['label'].startswith('in closure: ') else e['label']
+                        e2['full'] = sorted(set(e['full']) | set(outer))
+                        e2['atoms'] = sorted(set(e['atoms']) | set(outer))
+                        e2['span'] = e['span']
+                        out.append(e2)
+        return out
+
+    def census(self, depth=0):
         exits = []
         for bid, span, label, raw in self.raw_exits():
-            exits += self.flatten(bid, span, label, raw)
+            if raw == 'effect':
+                exits.append({'bid': bid, 'span': span, 'label': label, 'cls': 'exact', 'effect': True})
+            else:
+                exits += self.flatten(bid, span, label, raw)
         for e in exits:
             e['edges'] = self.closure_edges(e['bid'])
             e['imm'] = self.immediate_edges(e['bid'])
@@ -726,6 +797,8 @@ class Exits:
                 if at:
                     atoms.add(at)
             e['atoms'] = sorted(atoms)
+        for e in self.closure_effects(depth):
+            exits.append(e)
         return exits
 
 
